@@ -1001,6 +1001,16 @@ class OrderMachine(_MachineBase):
                            f"C17/report-refused/{type(e).__name__}/report={s['label']}/{prev_after}",
                            f"order refused the exchange's {s['label']} report [{msg_text(m)}]: {e!r} "
                            f"(order: status={o.status!r} clord_id={o.clord_id!r})")])
+        if s["t"] == "8" and self.violation is None:
+            # the channel is FIFO and every execution report states the order's quantities as of its emission: after
+            # processing it the object's CumQty / LeavesQty are the report's (only the *status* of a report that
+            # crosses a pending request is left aside on purpose)
+            want = (float(m[14]), float(m[151]))
+            have = (o.cum_qty, o.leaves_qty)
+            if have != want:
+                self.violate([("converges-at-quiescence", f"C17/report-quantities-not-taken-over/report={s['label']}/{prev_after}",
+                               f"after processing {s['label']} [{msg_text(m)}] the order has cum={have[0]} leaves={have[1]}, "
+                               f"the report says CumQty={want[0]} LeavesQty={want[1]}")])
         self.last_label = s["label"]
         self.last_to = s.get("to")
         if s["t"] == "9":
